@@ -461,3 +461,102 @@ func c07Replay(c *Ctx) {
 	}
 	r.Check(bad == "" && len(recs) > 0, "C07.replay", key, p.FuncPos(rd), "a return after reading from the source (at "+bad+") is reached without the bytes read having been appended to the replay buffer while replay is enabled: bytes delivered together with an error are lost for the next candidate key", "every return after the read: disabled, or buf[:n] recorded")
 }
+
+// ---------------------------------------------------------------- idzero
+//
+// Key IDs are arbitrary 32-bit values: 0 is a legal key ID (a manager hands it
+// out with probability 2^-32, WithFixedID(0) and keys with ID requirement 0
+// produce it deterministically). A comparison of a key ID with the constant 0
+// uses 0 as an "absent" sentinel and makes the key with ID 0 behave differently
+// from every other key. (ID *requirements*, where 0 does mean "none", are other
+// values and are not touched by this rule.)
+func isKeyIDValue(v ssa.Value, depth int) bool {
+	if depth > 4 {
+		return false
+	}
+	v = guard.Strip(v)
+	switch x := v.(type) {
+	case *ssa.Phi:
+		for _, e := range x.Edges {
+			if _, isC := e.(*ssa.Const); isC {
+				continue
+			}
+			if isKeyIDValue(e, depth+1) {
+				return true
+			}
+		}
+		return false
+	case *ssa.Extract:
+		if call, ok := x.Tuple.(*ssa.Call); ok {
+			return keyIDCall(call, x.Index, depth)
+		}
+		return false
+	case *ssa.Call:
+		return keyIDCall(x, 0, depth)
+	case *ssa.UnOp:
+		if x.Op == token.MUL {
+			if b, fld, ok := guard.FieldOf(x); ok {
+				tn := core.TypeID(b.Type())
+				switch fld {
+				case "KeyId", "PrimaryKeyId":
+					return strings.Contains(tn, "tink_go_proto")
+				case "keyID", "fixedID":
+					return strings.HasPrefix(tn, "keyset.") || strings.HasSuffix(tn, "AndKeyID") || strings.Contains(tn, "KeyID")
+				}
+			}
+		}
+	}
+	return false
+}
+
+func keyIDCall(call *ssa.Call, idx, depth int) bool {
+	n := guard.CalleeName(&call.Call)
+	switch {
+	case strings.HasSuffix(n, "keyset.Entry).KeyID"), strings.HasSuffix(n, ").GetKeyId"), strings.HasSuffix(n, ").GetPrimaryKeyId"):
+		return true
+	}
+	g := call.Call.StaticCallee()
+	if g == nil || g.Blocks == nil || core.FuncClass(g) != core.Product || depth > 2 {
+		return false
+	}
+	for _, ret := range guard.Returns(g) {
+		if idx < len(ret.Results) && isKeyIDValue(ret.Results[idx], depth+1) {
+			return true
+		}
+	}
+	return false
+}
+
+func idZeroRule(c *Ctx, rule string, inScope func(rel string) bool) {
+	p, r := c.P, c.R
+	n := 0
+	for _, f := range p.SortedFuncs(core.Product) {
+		if !inScope(core.Rel(core.PkgOf(f))) {
+			continue
+		}
+		allInstrs(f, func(ins ssa.Instruction) {
+			cmp, ok := ins.(*ssa.BinOp)
+			if !ok || !(cmp.Op == token.EQL || cmp.Op == token.NEQ) {
+				return
+			}
+			for _, pr := range [][2]ssa.Value{{cmp.X, cmp.Y}, {cmp.Y, cmp.X}} {
+				k, isK := guard.ConstInt(pr[1])
+				if !isK || k != 0 {
+					continue
+				}
+				if bt, isB := pr[0].Type().Underlying().(*types.Basic); !isB || bt.Kind() != types.Uint32 {
+					continue
+				}
+				if isKeyIDValue(pr[0], 0) {
+					n++
+					r.Bad(rule, fmt.Sprintf("%s/%s/%s compared with 0", rule, core.FuncID(f), valName(pr[0])), p.Pos(cmp.Pos()),
+						"a key ID is compared with the constant 0 (used as an 'absent' sentinel): 0 is a legal key ID, so the key with ID 0 is treated differently from every other key")
+				}
+			}
+		})
+	}
+	r.Counts["key_id_zero_comparisons"] = n
+	if n == 0 {
+		r.Ok(rule, rule+"/none", "-", "no key ID value is compared with the constant 0")
+	}
+}
